@@ -57,7 +57,10 @@ func (g *clearGen) genField(field *protogen.Field) {
 func (g *clearGen) genNullable(field *protogen.Field) {
 	switch {
 	case field.Desc.ContainingOneof() != nil:
+		// clearing a member that is not the selected one leaves the selected one alone
+		g.P("if _, ok := x.", field.Oneof.GoName, ".(*", field.GoIdent, "); ok {")
 		g.P("x.", field.Oneof.GoName, " = nil")
+		g.P("}")
 	case field.Desc.IsMap(), field.Desc.IsList(), field.Desc.Kind() == protoreflect.BytesKind:
 		g.P("x.", field.GoName, " = nil")
 	case field.Desc.Kind() == protoreflect.MessageKind:
